@@ -391,6 +391,7 @@ func init() {
 			},
 		}
 		return &vf.Check{
+			RacePass: c09RacePass,
 			ID: "C09", Level: "model_checking",
 			Rule: "every scenario (threads x atom operations) is explored by the controlled scheduler over the real lib/concurrent: every interleaving at lock operations and hook points up to the preemption bound; each complete execution's call/return history must be linearizable w.r.t. the sequential atom specification (a failing function leaves the atom unchanged, a self-reading function sees the value it is applied to, inner updates of another atom may repeat) and no execution may deadlock; non-trivial = scenario with at least one context switch inside an operation",
 			Assumptions: []string{"unsynchronised accesses between scheduling points are not seen by the cooperative scheduler (see the race pass)", "an update function updating its own atom is excluded by the property"},
